@@ -34,19 +34,26 @@ TECH = {
     'C04': 'regex-AST group/consumer exhaustiveness, sibling agreement of fast '
            'paths, constant-table agreement, enumerate-before-filter '
            'derivation of external-link indices, cache-key dependence',
-    'C05': 'must-pass-through on evaluation paths, sibling agreement of '
-           'reshape helpers',
+    'C05': 'must-pass-through on evaluation paths (followed into helpers that '
+           'are handed the evaluator), sibling agreement of reshape helpers, '
+           'in-place-write effect analysis',
     'C06': 'operator-table agreement, lattice-direction and inclusive-bound '
            'belief consistency, loop-carried dependence of the set-difference '
-           'split set, global/memoised-result write effects',
+           'split set, global/memoised-result write effects, who-may-write '
+           'on the cached value of a reference set',
     'C07': 'interprocedural alias/effect analysis (in-place writes to '
-           'parameters), cache-reset must-pass-through, sibling agreement',
+           'parameters), cache-reset must-pass-through, sibling agreement, '
+           'dominance of the sh.SELF re-binding over every use of a '
+           'sub-dispatcher',
     'C08': 'dominator (must-precede) rules on the two compile functions, '
            'in-place-write effect analysis on everything a compiled function '
-           'runs',
+           'runs, dominance of the sh.SELF re-binding over every use of a '
+           'sub-dispatcher',
     'C09': 'writer/reader tag exhaustiveness and quote-escape symmetry, '
            'export reads only state that survives __getstate__, reference '
-           'table identity between the two load paths',
+           'table identity between the two load paths, dead type tests '
+           '(subclass tested where the base class already failed) from path '
+           'conditions',
     'C10': 'registry table agreement (lazy set, guard positions), '
            'order-determinism of cut-node choice (loops and short-circuit '
            'reducers), per-component definition of the search state, '
@@ -57,7 +64,9 @@ TECH = {
            'leaves of the finiteness funnel',
     'C13': 'call-graph reachability of nondeterminism sources + '
            'who-may-register (effect discipline), dominance on pre-evaluation '
-           'sites, whole-value registration of compiled token functions',
+           'sites, whole-value registration of compiled token functions, '
+           'memoisation (decorator or call form) on wrapper layers, kind '
+           'inference through a registered input parser',
     'C14': 'three-site exception-class agreement, handler breadth '
            '(must-pass-through), compile-before-discard dominance in '
            'Cell.compile, cache-key dependence',
@@ -66,13 +75,18 @@ TECH = {
     'C17': 'pickling-hook/attribute-set sibling agreement, module-level token '
            'inventory, global-write effect analysis, reads of attributes '
            'emptied by __getstate__ from copy-stable operations, shared '
-           'mutable defaults installed by state-restoring hooks',
+           'mutable defaults installed by state-restoring hooks, class-level '
+           'mutable containers left out of the pickled state, memo '
+           'registration before deep-copying in hand-written __deepcopy__',
     'C18': 'interprocedural exception-escape analysis from Parser.ast, '
-           'regex-language containment, handler coverage of int() on '
-           'unbounded digit runs',
+           'regex-language containment (token-name languages, path-sensitive, '
+           'against every class-level table indexed by the name), handler '
+           'coverage of int() on unbounded digit runs, store-to-break '
+           'analysis of the sentinel form of for-else',
     'C19': 'call-graph sibling agreement, type-guard dominance, slot-memo '
            'dependence, in-place-write effect analysis on lookup cores',
-    'C20': 'constant folding and table agreement against Excel limits',
+    'C20': 'constant folding and table agreement against Excel limits, '
+           'untyped-memo kind dependence followed through dispatcher nodes',
 }
 
 
